@@ -559,6 +559,31 @@ fn run_text_case(f: &[&str], vals: &BTreeMap<String, Cell>) -> String {
                     xs = *Box::from_raw(p);
                 }
             }
+            "capi" => {
+                // what a C host does with a value it has popped: every predicate and accessor, the vector accessor also
+                // at and behind the end (NULL), the bytes of a bit-string read through the pointer that is handed out
+                let p = Box::into_raw(Box::new(std::mem::replace(&mut xs, fresh(0, false))));
+                unsafe {
+                    use xeh::c_api::*;
+                    while xeh_top_len(p) > 0 {
+                        let v = xeh_pop(p);
+                        if v.is_null() { break; }
+                        stage("c_api predicates");
+                        let _ = (xeh_is_nil(v), xeh_is_int(v), xeh_is_real(v), xeh_is_string(v), xeh_is_vector(v), xeh_is_bitstr(v));
+                        stage("c_api xeh_bitstr_bytes");
+                        let (bp, bl) = (xeh_bitstr_bytes(v), xeh_bitstr_len(v));
+                        if !bp.is_null() { let mut sum = 0u32; for i in 0..bl / 8 { sum = sum.wrapping_add(*bp.add(i) as u32); } let _ = sum; }
+                        let n = xeh_vector_len(v);
+                        for idx in [0usize, n.wrapping_sub(1), n, n + 1, n + 1000, usize::MAX] {
+                            stage("c_api xeh_vector_at");
+                            let c = xeh_vector_at(v, idx);
+                            if !c.is_null() { let _ = xeh_is_int(c); let _ = xeh_vector_len(c); xeh_release(c); }
+                        }
+                        xeh_release(v);
+                    }
+                    xs = *Box::from_raw(p);
+                }
+            }
             "pop" => {
                 let r = xs.pop_data();
                 if let Ok(c) = &r {
@@ -1611,6 +1636,21 @@ fn plan_fixed_texts(plan: &mut Plan, ctx: &mut Ctx) {
         ("fixed:deep-let-pattern", vec![t(&format!("[ ] let {}", "[ ".repeat(40_000)))]),
     ] {
         fixed.push((name.into(), steps));
+    }
+    // a C host looks at what it popped: vectors (also empty, also tagged, also nested) indexed at and behind their end,
+    // bit-strings wherever they lie in their buffers, everything else
+    fixed.push(("fixed:c-api-accessors".into(), vec![t("[ 10 20 30 ] [ ] [ 1 [ 2 ] ] ^hex 5 nil 1.5 \"s\" |ab cd| |ab cd| open-bitstr 4 bits drop 8 bits close-bitstr { 1 2 } [ 7 ] 1 \"k\" insert-tag"), "capi".into()]));
+    // widths beyond the 128 bits of an integer, in both byte orders, with every variable-width packing word
+    for (i, w) in [127usize, 128, 129, 135, 136, 137, 144, 200, 256, 1000].iter().enumerate() {
+        let src = format!("big -2 {w} uint! drop big 1 {w} int! drop little -2 {w} uint! drop little 1 {w} int! drop big -1 {w} int! little 170141183460469231731687303715884105727 {w} uint!", w = w);
+        fixed.push((format!("fixed:wide-pack-{}", i), vec![t(&src), "perr".into(), "fmt".into()]));
+    }
+    // `input` and `offset` are ordinary variables: a position behind the end of the input is a failed read (an error
+    // value with "0 remain"), whichever word reads
+    for (i, src) in ["|FFFF| open-bitstr 16 bits drop |FF| ! input u8", "|FF| open-bitstr 16 ! offset 4 bits", "5 ! offset u8", "|FF| open-bitstr 100 ! offset 1 bytes", "|FFFF| open-bitstr 17 ! offset 3 int",
+        "|FF| open-bitstr 9 ! offset 32 float", "|FF| open-bitstr 9 ! offset |00| magic", "|FF| open-bitstr 9 ! offset remain offset", "|FF| open-bitstr 64 ! offset cstr", "|FF| open-bitstr 64 ! offset |FF| find",
+        "|FFFF| open-bitstr u8 drop | | ! input u16be", "|FF| open-bitstr 18446744073709551615 ! offset u8", "|FF| open-bitstr 9 ! offset i64le", "|FF| open-bitstr 9 ! offset nulbytestr"].iter().enumerate() {
+        fixed.push((format!("fixed:offset-behind-the-end-{}", i), vec![t(src), "perr".into(), "fmt".into()]));
     }
     let long_e: String = std::iter::repeat('é').take(38).collect();
     fixed.push(("fixed:split75".into(), vec![t(&format!("\"{}\" error", long_e)), "perr".into(), t(&format!("\"{}\"", long_e)), "fmt".into()]));
